@@ -95,7 +95,7 @@ theorem kindDec_step {x : LinkedLayer} (hwf : x.WF tb) (hf : x.Fits tb) {d : B} 
       have n1 : ¬ GP.linkedData = GP.linkedExternal := by decide
       have n2 : ¬ GP.linkedData = GP.linkedAlias := by decide
       simp only [kindT, hE, hA, hD, Bool.false_eq_true, if_false, if_true, List.nil_append, hdt, optBytesT] at h ⊢
-      have e1 := readUpTo_at h.left
+      have e1 := readSized_at h.left
       simp only [kindDec, bind, Except.bind, hk, if_neg n1, if_neg n2, if_true, dataLen, hdt, e1, kdata, hE, Bool.false_eq_true,
         false_and, if_false, hlf, hts, hfs]
   · -- EXTERNAL
@@ -130,7 +130,7 @@ theorem kindDec_step {x : LinkedLayer} (hwf : x.WF tb) (hf : x.Fits tb) {d : B} 
               simp only [h3, h2, if_true, htsv, optTsT, hdt, optBytesT, List.append_assoc] at h ⊢
               obtain ⟨e2, h⟩ := ts_step hts h
               obtain ⟨e3, h⟩ := readU_step h ffs
-              have e4 := readUpTo_at h.left
+              have e4 := readSized_at h.left
               have hle : ¬ (True ∧ x.version ≤ 2) := by omega
               simp only [kindDec, bind, Except.bind, hk, if_true, e1, h3, Codec.optItem, e2, e3, h2, dataLen, hdt, e4, if_neg n2, kdata,
                 hE, hle, if_false]
@@ -143,7 +143,7 @@ theorem kindDec_step {x : LinkedLayer} (hwf : x.WF tb) (hf : x.Fits tb) {d : B} 
             | some dt =>
               simp only [h3, h2, if_false, if_true, hdt, optBytesT, List.nil_append] at h ⊢
               obtain ⟨e3, h⟩ := readU_step h ffs
-              have e4 := readUpTo_at h.left
+              have e4 := readSized_at h.left
               have hle : ¬ (True ∧ x.version ≤ 2) := by omega
               simp only [kindDec, bind, Except.bind, hk, if_true, e1, h3, if_false, e3, h2, Codec.optItem, dataLen, hdt, e4, if_neg n2,
                 kdata, hE, hle, hts]
@@ -255,7 +255,7 @@ theorem dec_at (pad : Nat) {x : LinkedLayer} (hwf : x.WF tb) (hf : x.Fits tb) {d
   obtain ⟨e10, h10⟩ := kindDec_step tb hwf' hf' h9
   obtain ⟨e11, h11⟩ := tailDec_step tb hwf' hf' h10
   -- the data of an EXTERNAL item of version 2 comes last
-  have s12 : ∃ q, (if x.kind = GP.linkedExternal ∧ x.version = 2 then Codec.optItem (readUpTo x.dataLen) d
+  have s12 : ∃ q, (if x.kind = GP.linkedExternal ∧ x.version = 2 then Codec.optItem (readSized x.dataLen) d
         (q9 + (x.kindT tb).length + x.tailT.length) else .ok (x.kdata, q9 + (x.kindT tb).length + x.tailT.length)) = .ok (x.data, q) ∧
       q = q9 + (x.kindT tb).length + x.tailT.length + x.lateT.length := by
     by_cases hl : x.kind = GP.linkedExternal ∧ x.version = 2
@@ -267,7 +267,7 @@ theorem dec_at (pad : Nat) {x : LinkedLayer} (hwf : x.WF tb) (hf : x.Fits tb) {d
       | some dt =>
         have hlate : x.lateT = dt := by simp only [lateT, hE, hl.2, and_self, if_true, hdt, optBytesT]
         rw [hlate] at h11 ⊢
-        have e := readUpTo_at h11.left
+        have e := readSized_at h11.left
         exact ⟨q9 + (x.kindT tb).length + x.tailT.length + dt.length, by rw [if_pos hl]; simp only [Codec.optItem, dataLen, hdt, e], rfl⟩
     · have hlate : x.lateT = [] := by
         have : ¬ (x.isExternal = true ∧ x.version = 2) := by
